@@ -12,7 +12,7 @@ from ..flow import Flow
 from ..paths import enumerate_paths
 from .c15_util import (MINTRO, BACKENDS, NINJA, MSETUP, MTEST, MINSTALL, OPTIONS, INTERP, IDEDOC, FuncNode, Locals, params, param,
                        intro_table, intro_func, method_calls, recv, is_call_on, dict_entries, subscript_stores, attrs_of,
-                       const_strs, embedded_calls, path_term, eval_term, fmt_term, Term, parents)
+                       const_strs, embedded_calls, path_term, eval_term, fmt_term, Term, parents, bind_args, judge)
 
 EXPLANATION = (
     'Decides structural clauses of C15: the meson-info files and the files the other tools consume are projections of the same '
@@ -79,12 +79,28 @@ def r4(ctx: RuleCtx) -> None:
     idef = loc.defs.get(interp_var, [])
     if len(idef) != 1 or not isinstance(idef[0], ast.Call) or not idef[0].args:
         raise Undecided(f'_generate: cannot resolve the interpreter object `{interp_var}`')
-    build_arg = norm(idef[0].args[0])
+    ib = bind_args(idef[0], None, ['build'])
+    if 'build' not in ib and '_build' not in ib:
+        raise Undecided(f'_generate: cannot see the Build the interpreter `{interp_var}` is constructed over')
+    build_arg = norm(ib.get('build', ib.get('_build')))
+    gif = ctx.repo.module(MINTRO).func('generate_introspection_file')
+    g0, g1 = param(gif, 0, 'generate_introspection_file'), param(gif, 1, 'generate_introspection_file')
     for i, c in enumerate(intro_calls):
-        got = [norm(a) for a in c.args]
-        ctx.require(got == [build_arg, backend_chain], f'site {i + 1} `{short(c, 60)}` receives the build the backend was created for and that backend',
-                    mod, 'MesonApp._generate', c, f'introspection is generated for ({", ".join(got)}) but the generated backend is {backend_chain} '
-                    f'of the interpreter constructed over {build_arg}')
+        ba = bind_args(c, gif)
+        got = []
+        for g, want_txt in ((g0, build_arg), (g1, backend_chain)):
+            if g not in ba:
+                got.append('<missing>')
+                continue
+            raw = norm(ba[g])
+            if raw != want_txt and isinstance(ba[g], ast.Name):
+                r_ = loc.resolve(ba[g])          # a plain alias of the same object
+                if attr_chain(r_) == want_txt:
+                    raw = want_txt
+            got.append(raw)
+        judge(ctx, got == [build_arg, backend_chain], f'site {i + 1} `{short(c, 60)}` receives the build the backend was created for and that backend',
+              '<missing>' not in got, mod, 'MesonApp._generate', c, f'introspection is generated for ({", ".join(got)}) but the generated backend is '
+              f'{backend_chain} of the interpreter constructed over {build_arg}')
 
 
 # ---------------------------------------------------------------------------
@@ -230,6 +246,18 @@ def _check_builddir_model(ctx: RuleCtx) -> None:
     ctx.ok('build.Target: get_builddir() = prefix+subdir [/ build_subdir when set]; get_build_subdir()/get_subdir() return their fields')
 
 
+def _inline(loc: Locals, e: ast.AST, depth: int = 4) -> ast.AST:
+    """Expression with single-definition locals substituted (receiver chains included): `ts = b.get_targets(); ts.items()` -> `b.get_targets().items()`."""
+    class _R(ast.NodeTransformer):
+        def visit_Name(self, n: ast.Name) -> ast.AST:
+            if isinstance(n.ctx, ast.Load) and n.id not in params(loc.fn):
+                d = loc.defs.get(n.id)
+                if d and len(d) == 1 and d[0] is not None and depth > 0:
+                    return _inline(loc, copy.deepcopy(d[0]), depth - 1)
+            return n
+    return _R().visit(copy.deepcopy(e))
+
+
 def r3(ctx: RuleCtx) -> None:
     mod = ctx.repo.module(MINTRO)
     fn = intro_func(mod, 'targets')
@@ -257,28 +285,32 @@ def r3(ctx: RuleCtx) -> None:
     # the target variable is the value of builddata.get_targets().items()
     tloops = [l for l in ast.walk(fn) if isinstance(l, ast.For) and isinstance(l.target, ast.Tuple) and len(l.target.elts) == 2
               and isinstance(l.target.elts[1], ast.Name) and l.target.elts[1].id == tvar]
-    ok_loop = len(tloops) == 1 and norm(tloops[0].iter) == f'{p_build}.get_targets().items()'
-    ctx.require(ok_loop, f'{qn}: targets iterate {p_build}.get_targets().items()', mod, qn, tloops[0].iter if tloops else fe,
-                'the target list is not the (id, target) items of the Build that was generated')
+    it_res = norm(_inline(loc, tloops[0].iter)) if len(tloops) == 1 else ''
+    judge(ctx, it_res == f'{p_build}.get_targets().items()', f'{qn}: targets iterate {p_build}.get_targets().items()',
+          it_res.endswith('.get_targets().items()') and it_res != f'{p_build}.get_targets().items()', mod, qn, tloops[0].iter if tloops else fe,
+          f'the target list is `{it_res}`, not the (id, target) items of the Build that was generated')
     elt = fe.elt
     if not (isinstance(elt, ast.Call) and call_method(elt) == 'join' and recv(elt) == 'os.path' and len(elt.args) == 3
             and isinstance(elt.args[2], ast.Name) and elt.args[2].id == gen.target.id):
         raise Undecided(f'{qn}: filename element is not os.path.join(build_dir, outdir, output): {short(elt)}')
-    root = loc.resolve(elt.args[0])
-    ctx.require(norm(root) == f'{p_build}.environment.get_build_dir()', f'{qn}: filenames are rooted at the build directory', mod, qn, elt,
-                f'filenames are rooted at `{short(root)}`, ninja outputs are relative to {p_build}.environment.get_build_dir()')
+    root = _inline(loc, elt.args[0])
+    judge(ctx, norm(root) in (f'{p_build}.environment.get_build_dir()', f'{p_build}.environment.build_dir'), f'{qn}: filenames are rooted at the build directory',
+          isinstance(root, ast.Call) and call_method(root) in ('get_source_dir', 'get_scratch_dir', 'get_log_dir'), mod, qn, elt,
+          f'filenames are rooted at `{short(root)}`, ninja outputs are relative to {p_build}.environment.get_build_dir()')
     outdir = loc.resolve(elt.args[1])
     bmod, bqn, bfn, btp = _backend_dir_fn(ctx)
     if is_call_on(outdir, p_backend, 'get_target_dir') and isinstance(outdir, ast.Call) and [norm(a) for a in outdir.args] == [tvar]:
         ctx.ok(f'{qn}: output directory is {p_backend}.get_target_dir({tvar}) — the function the backend itself uses ({bqn})')
         return
-    if not (isinstance(outdir, ast.Call) and isinstance(outdir.func, ast.Name) and mod.has_func(outdir.func.id) and not outdir.keywords):
+    if not (isinstance(outdir, ast.Call) and isinstance(outdir.func, ast.Name) and mod.has_func(outdir.func.id)):
         raise Undecided(f'{qn}: output directory expression not understood: {short(outdir)}')
     mfn = mod.func(outdir.func.id)
-    mps = params(mfn)
-    if len(mps) != len(outdir.args):
-        raise Undecided(f'{qn}: arity mismatch calling {mfn.name}')
-    bind = {p: loc.resolve(a) for p, a in zip(mps, outdir.args)}
+    bind = {p: _inline(loc, a) for p, a in bind_args(outdir, mfn).items()}
+    defaults = mfn.args.defaults
+    for p_, d_ in zip(params(mfn)[len(params(mfn)) - len(defaults):], defaults):
+        bind.setdefault(p_, d_)
+    if set(params(mfn)) - set(bind):
+        raise Undecided(f'{qn}: call of {mfn.name} does not bind {sorted(set(params(mfn)) - set(bind))}')
     _check_builddir_model(ctx)
     mrows = _dir_table(mfn, bind, {tvar}, mfn.name)
     brows = _dir_table(bfn, {}, {btp}, bqn)
@@ -349,18 +381,30 @@ def _pickled_test_getters(ctx: RuleCtx) -> T.Dict[str, T.Tuple[str, str]]:
             raise Undecided(f'{qn}: cannot pair data file and writer in {short(w)}')
         wm, wqn, wfn = _resolved_method(ctx, call_method(calls[0]) or '')
         c = _only_stmt_call(wfn, wqn)
-        if recv(c) != 'self' or len(c.args) != 2 or norm(c.args[1]) != param(wfn, 0, wqn):
+        if recv(c) != 'self':
             raise Undecided(f'{wqn}: not self.<pickler>(<tests>, datafile): {short(c)}')
-        getter = c.args[0]
+        pm, pqn, pfn = _resolved_method(ctx, call_method(c) or '')
+        cb = bind_args(c, pfn)
+        pt, pf = param(pfn, 0, pqn), param(pfn, 1, pqn)
+        if pt not in cb or pf not in cb or norm(cb[pf]) != param(wfn, 0, wqn):
+            raise Undecided(f'{wqn}: not self.<pickler>(<tests>, datafile): {short(c)}')
+        getter = cb[pt]
         if not (isinstance(getter, ast.Call) and recv(getter) == 'self.build' and not getter.args):
             raise Undecided(f'{wqn}: test list is not self.build.<getter>(): {short(getter)}')
-        pm, pqn, pfn = _resolved_method(ctx, call_method(c) or '')
         dumps = [d for d in method_calls(pfn, 'dump') if recv(d) == 'pickle']
-        ok = len(dumps) == 1 and len(dumps[0].args) == 2 and norm(dumps[0].args[1]) == param(pfn, 1, pqn) \
-            and is_call_on(Locals(pfn).resolve(dumps[0].args[0]), 'self', 'create_test_serialisation') \
-            and [norm(a) for a in Locals(pfn).resolve(dumps[0].args[0]).args] == [param(pfn, 0, pqn)]  # type: ignore[attr-defined]
-        ctx.require(ok, f'{pqn} pickles self.create_test_serialisation(<its test list>) into its data file ({names[0]} via {wqn})', pm, pqn, pfn,
-                    f'{pqn} does not pickle exactly self.create_test_serialisation({param(pfn, 0, pqn)}): mtest and intro-tests.json no longer share a producer')
+        ploc = Locals(pfn)
+        ok = positive = False
+        if len(dumps) == 1:
+            db = bind_args(dumps[0], None, ['obj', 'file'])
+            obj = _inline(ploc, db['obj']) if 'obj' in db else None
+            if obj is not None and 'file' in db and norm(db['file']) == pf and is_call_on(obj, 'self', 'create_test_serialisation'):
+                _, _, cts = _resolved_method(ctx, 'create_test_serialisation')
+                ab = bind_args(obj, cts)  # type: ignore[arg-type]
+                a0 = ab.get(param(cts, 0, 'create_test_serialisation'))
+                ok = a0 is not None and norm(a0) == pt
+                positive = a0 is not None and not ok      # a different (filtered, re-ordered, other) list is pickled
+        judge(ctx, ok, f'{pqn} pickles self.create_test_serialisation(<its test list>) into its data file ({names[0]} via {wqn})', positive, pm, pqn, pfn,
+              f'{pqn} does not pickle exactly self.create_test_serialisation({pt}): mtest and intro-tests.json no longer share a producer')
         out[names[0]] = (call_method(getter) or '', wqn)
     return out
 
@@ -398,7 +442,7 @@ def _mtest_files(ctx: RuleCtx) -> T.Dict[bool, str]:
     fl = Flow(lt)
     ok = len(loads) == 1 and any(f'param:{param(lt, 0, "load_tests")}' in fl.origins(w.items[0].context_expr)
                                  for w in ast.walk(lt) if isinstance(w, ast.With))
-    ctx.require(ok, 'mtest.load_tests unpickles the file it is given', mod, 'TestHarness.load_tests', lt, 'load_tests does not unpickle its file_name argument')
+    judge(ctx, ok, 'mtest.load_tests unpickles the file it is given', False, mod, 'TestHarness.load_tests', lt, 'load_tests does not unpickle its file_name argument')
     return out
 
 
@@ -411,8 +455,8 @@ def r1a(ctx: RuleCtx) -> None:
     # generate() of the ninja backend always serialises the tests
     nmod = ctx.repo.module(NINJA)
     gt = nmod.func('NinjaBackend.generate_tests')
-    ctx.require(any(recv(c) == 'self' for c in method_calls(gt, 'serialize_tests', nested=False)), 'NinjaBackend.generate_tests calls self.serialize_tests()',
-                nmod, 'NinjaBackend.generate_tests', gt, 'generate_tests no longer pickles the test data through serialize_tests')
+    judge(ctx, any(recv(c) == 'self' for c in method_calls(gt, 'serialize_tests', nested=False)), 'NinjaBackend.generate_tests calls self.serialize_tests()',
+          False, nmod, 'NinjaBackend.generate_tests', gt, 'generate_tests no longer pickles the test data through serialize_tests')
     _always_runs(ctx, 'generate_tests')
     for kind, mode in (('tests', False), ('benchmarks', True)):
         fn = intro_func(mod, kind)
@@ -425,21 +469,27 @@ def r1a(ctx: RuleCtx) -> None:
         getter, wqn = pickled[fname]
         calls = [c for c in method_calls(fn, 'create_test_serialisation')]
         loc = Locals(fn)
-        ok = len(calls) == 1 and recv(calls[0]) == pk and len(calls[0].args) == 1
-        arg = loc.resolve(calls[0].args[0]) if ok else None
-        ok = ok and is_call_on(arg, pb, getter) and not arg.args  # type: ignore[union-attr]
-        ctx.require(ok, f'intro-{kind}.json: {qn} serialises {pb}.{getter}() with {pk}.create_test_serialisation — the call pickled into {fname} by {wqn}',
-                    mod, qn, calls[0] if calls else fn,
-                    f'intro-{kind}.json is not built from {pk}.create_test_serialisation({pb}.{getter}()), the data `meson test` '
-                    f'(benchmark={mode}) loads from {fname}: got {short(arg) if arg is not None else [short(c) for c in calls]}')
+        _, _, cts = _resolved_method(ctx, 'create_test_serialisation')
+        arg = None
+        if len(calls) == 1 and recv(calls[0]) == pk:
+            a_ = bind_args(calls[0], cts).get(param(cts, 0, 'create_test_serialisation'))
+            arg = _inline(loc, a_) if a_ is not None else None
+        ok = arg is not None and is_call_on(arg, pb, getter) and not arg.args  # type: ignore[union-attr]
+        # positive evidence: several serialisations are mixed, or the one that is made is of another list of the build
+        positive = len(calls) > 1 or (arg is not None and isinstance(arg, ast.Call) and recv(arg) == pb and call_method(arg) != getter)
+        judge(ctx, ok, f'intro-{kind}.json: {qn} serialises {pb}.{getter}() with {pk}.create_test_serialisation — the call pickled into {fname} by {wqn}',
+              positive, mod, qn, calls[0] if calls else fn,
+              f'intro-{kind}.json is not built from {pk}.create_test_serialisation({pb}.{getter}()), the data `meson test` '
+              f'(benchmark={mode}) loads from {fname}: got {short(arg) if arg is not None else [short(c) for c in calls]}')
         fl = Flow(fn)
         rets = [r for r in ast.walk(fn) if isinstance(r, ast.Return) and r.value is not None]
         want = f'call:{pk}.create_test_serialisation'
         okr = bool(rets) and all(want in fl.origins(r.value) for r in rets)
         others = sorted({o for r in rets for o in fl.origins(r.value) if o.startswith('call:') and o not in (want, f'call:{pb}.{getter}')})
         proj = [o[5:] for o in others if mod.has_func(o[5:])]
-        ctx.require(okr and len(others) == len(proj) <= 1, f'{qn}: the result is a projection ({", ".join(proj) or "identity"}) of that serialisation only', mod, qn,
-                    rets[0] if rets else fn, f'the returned data does not (only) derive from the serialisation: sources {others}')
+        foreign = [o for o in others if o[5:].split('.')[0] in (pb, pk, param(fn, 0, qn))]
+        judge(ctx, okr and len(others) == len(proj) <= 1, f'{qn}: the result is a projection ({", ".join(proj) or "identity"}) of that serialisation only', bool(foreign), mod, qn,
+              rets[0] if rets else fn, f'the returned data does not (only) derive from the serialisation: sources {others}')
 
 
 
@@ -450,9 +500,9 @@ def _always_runs(ctx: RuleCtx, method: str) -> None:
     cfg = CFG(gen)
     nodes = cfg.nodes_with_call(lambda c: call_method(c) == method and recv(c) == 'self')
     ok = bool(nodes) and cfg.must_pass(cfg.entry, cfg.exit_return, nodes, no_exc=True)
-    ctx.require(ok, f'NinjaBackend.generate: every normal path runs self.{method}()', nmod, 'NinjaBackend.generate', f'self.{method}()',
-                f'NinjaBackend.generate can return without calling self.{method}(): the data file the tools load is stale or missing '
-                'while the intro file is regenerated')
+    judge(ctx, ok, f'NinjaBackend.generate: every normal path runs self.{method}()', bool(nodes), nmod, 'NinjaBackend.generate', f'self.{method}()',
+          f'NinjaBackend.generate can return without calling self.{method}(): the data file the tools load is stale or missing '
+          'while the intro file is regenerated')
 
 
 # ---------------------------------------------------------------------------
@@ -479,29 +529,39 @@ def r1b(ctx: RuleCtx) -> None:
         op = w.items[0].context_expr
         if isinstance(op, ast.Call) and call_method(op) == 'open' and op.args:
             files += [x for x in const_strs(loc.resolve(op.args[0])) if x.endswith('.dat')]
-    ok = len(dumps) == 1 and len(dumps[0].args) == 2 and is_call_on(loc.resolve(dumps[0].args[0]), 'self', 'create_install_data') and len(files) == 1
-    ctx.require(ok, f'{qn} pickles self.create_install_data() into {files}', m, qn, cf, f'{qn} does not pickle exactly self.create_install_data() into one .dat file')
+    obj = None
+    if len(dumps) == 1:
+        db = bind_args(dumps[0], None, ['obj', 'file'])
+        obj = _inline(loc, db['obj']) if 'obj' in db else None
+    ok = obj is not None and is_call_on(obj, 'self', 'create_install_data') and len(files) == 1
+    judge(ctx, ok, f'{qn} pickles self.create_install_data() into {files}', obj is not None and len(files) == 1 and not isinstance(obj, ast.Name), m, qn, cf,
+          f'{qn} pickles `{short(obj)}`, not self.create_install_data(), into {files}')
     nmod = ctx.repo.module(NINJA)
     gi = nmod.func('NinjaBackend.generate_install')
-    ctx.require(any(recv(c) == 'self' for c in method_calls(gi, 'create_install_data_files', nested=False)),
-                'NinjaBackend.generate_install calls self.create_install_data_files()', nmod, 'NinjaBackend.generate_install', gi,
-                'generate_install no longer writes install.dat through create_install_data_files')
+    judge(ctx, any(recv(c) == 'self' for c in method_calls(gi, 'create_install_data_files', nested=False)),
+          'NinjaBackend.generate_install calls self.create_install_data_files()', False, nmod, 'NinjaBackend.generate_install', gi,
+          'generate_install no longer writes install.dat through create_install_data_files')
     _always_runs(ctx, 'generate_install')
     # consumer side (meson install)
     imod = ctx.repo.module(MINSTALL)
     run = imod.func('run')
     rloc = Locals(run)
     di_calls = [c for c in embedded_calls(ast.Module(body=run.body, type_ignores=[])) if call_method(c) == 'do_install']
-    loaded = {x for c in di_calls if len(c.args) == 1 for x in const_strs(rloc.resolve(c.args[0]))}
-    ok = bool(di_calls) and len(loaded) == 1 and bool(files) and next(iter(loaded)).split('/')[-1] == files[0] if files else False
-    ctx.require(ok, f'minstall.run installs from {sorted(loaded)} — the file {qn} writes', imod, 'run', run,
-                f'`meson install` loads {sorted(loaded)} but the backend writes {files}')
+    dif = imod.func('Installer.do_install')
+    loaded = set()
+    for c in di_calls:
+        a_ = bind_args(c, dif).get(param(dif, 0, 'do_install'))
+        if a_ is not None:
+            loaded |= set(const_strs(_inline(rloc, a_)))
+    ok = bool(di_calls) and len(loaded) == 1 and len(files) == 1 and next(iter(loaded)).split('/')[-1] == files[0]
+    judge(ctx, ok, f'minstall.run installs from {sorted(loaded)} — the file {qn} writes', len(loaded) == 1 and len(files) == 1, imod, 'run', run,
+          f'`meson install` loads {sorted(loaded)} but the backend writes {files}')
     di = imod.func('Installer.do_install')
     dloc = Locals(di)
     dvars = [k for k, v in dloc.defs.items() if len(v) == 1 and isinstance(v[0], ast.Call) and call_method(v[0]) == 'load_install_data'
              and [norm(a) for a in v[0].args] == [param(di, 0, 'do_install')]]
-    ctx.require(len(dvars) == 1, 'Installer.do_install unpickles its datafilename argument', imod, 'Installer.do_install', di,
-                'do_install does not load the install data from the file it is given')
+    judge(ctx, len(dvars) == 1, 'Installer.do_install unpickles its datafilename argument', False, imod, 'Installer.do_install', di,
+          'do_install does not load the install data from the file it is given')
     # introspection side
     n_inst = 0
     for kind in ('installed', 'install_plan', 'targets'):
@@ -510,21 +570,20 @@ def r1b(ctx: RuleCtx) -> None:
         pb, pk = param(fn, 1, fq), param(fn, 2, fq)
         var, calls = _install_source(ctx, fn, fq, pk)
         ok = len(calls) == 1 and recv(calls[0]) == pk and not calls[0].args and var is not None and len(Locals(fn).defs.get(var, [])) == 1
-        ctx.require(ok, f'intro-{kind}.json: {fq} takes the install data from {pk}.create_install_data()', mod, fq, calls[0] if calls else fn,
-                    f'{fq} does not take its install data from a single {pk}.create_install_data() call')
+        judge(ctx, ok, f'intro-{kind}.json: {fq} takes the install data from {pk}.create_install_data()', len(calls) > 1, mod, fq, calls[0] if calls else fn,
+              f'{fq} calls create_install_data() {len(calls)} times: the entries come from different InstallData objects than the one pickled')
         if not ok:
             continue
         # every InstallData list that is iterated is a field of that object
         lists = _install_lists(ctx)
-        for l in ast.walk(fn):
-            it = l.iter if isinstance(l, (ast.For, ast.comprehension)) else None
-            if it is None:
-                continue
-            for a in ast.walk(it):
-                if isinstance(a, ast.Attribute) and a.attr in lists:
-                    n_inst += 1
-                    ctx.require(isinstance(a.value, ast.Name) and a.value.id == var, f'{fq}: iterates {var}.{a.attr}', mod, fq, a,
-                                f'{fq} iterates {short(a)}: an install list that is not the one of {pk}.create_install_data()')
+        for a in ast.walk(fn):
+            if isinstance(a, ast.Attribute) and a.attr in lists and isinstance(a.ctx, ast.Load):
+                base = a.value
+                if isinstance(base, ast.Name) and base.id != var and base.id not in (pb, pk) and not is_call_on(Locals(fn).resolve(base), pk, 'create_install_data'):
+                    continue       # an unrelated object that happens to have an attribute of that name (e.g. a man page's .data)
+                n_inst += 1
+                ctx.require(isinstance(base, ast.Name) and base.id == var, f'{fq}: reads {var}.{a.attr}', mod, fq, a,
+                            f'{fq} reads {short(a)}: an install list that is not the one of {pk}.create_install_data()')
         fl = Flow(fn)
         want = f'call:{pk}.create_install_data'
         if kind == 'targets':
@@ -535,7 +594,7 @@ def r1b(ctx: RuleCtx) -> None:
             sinks = [r.value for r in ast.walk(fn) if isinstance(r, ast.Return) and r.value is not None]
             what = 'the result'
         okf = bool(sinks) and all(want in fl.origins(x) for x in sinks)
-        ctx.require(okf, f'{fq}: {what} derives from that install data', mod, fq, sinks[0] if sinks else fn, f'{fq}: {what} does not derive from {pk}.create_install_data()')
+        judge(ctx, okf, f'{fq}: {what} derives from that install data', False, mod, fq, sinks[0] if sinks else fn, f'{fq}: {what} does not derive from {pk}.create_install_data()')
         if kind != 'targets':
             foreign = sorted({o for x in sinks for o in fl.origins(x) if o.startswith('call:') and o != want
                               and o[5:].split('.')[0] in (pb, pk, param(fn, 0, fq))})
@@ -566,10 +625,22 @@ STORE = 'introspection_data'
 STORE_WRITERS = {'__init__', 'generate_target', 'create_target_source_introspection', 'create_target_linker_introspection'}
 
 
-def _key_is_target_id(fn: FuncNode, key: ast.AST) -> bool:
-    k = Locals(fn).resolve(key)
+def _key_is_target_id(fn: FuncNode, key: ast.AST) -> T.Optional[bool]:
+    """True: <param>.get_id(); False: visibly something else derived from a parameter; None: cannot tell."""
+    try:
+        k = Locals(fn).resolve(key)
+    except Undecided:
+        return None
     ps = params(fn)
-    return isinstance(k, ast.Call) and call_method(k) == 'get_id' and not k.args and recv(k) in ps
+    if isinstance(k, ast.Call) and call_method(k) == 'get_id' and not k.args and recv(k) in ps:
+        return True
+    if isinstance(k, ast.Name) and k.id in ps:
+        # keyed by a bare parameter: wrong when the function itself computes <param>.get_id() (it has the id and does not use it), else unknown
+        has_id = any(isinstance(c, ast.Call) and call_method(c) == 'get_id' and recv(c) in ps for c in ast.walk(fn))
+        return False if has_id else None
+    if isinstance(k, ast.Call) and recv(k) in ps and not k.args:
+        return False
+    return None
 
 
 def r1c(ctx: RuleCtx) -> None:
@@ -581,27 +652,38 @@ def r1c(ctx: RuleCtx) -> None:
     ents += [v for _, k, v, _ in subscript_stores(fn) if k == 'target_sources']
     if len(ents) != 1:
         raise Undecided(f'{qn}: expected one target_sources entry, found {len(ents)}')
-    e = Locals(fn).resolve(ents[0])
-    loops = [l for l in ast.walk(fn) if isinstance(l, ast.For) and norm(l.iter) == f'{pb}.get_targets().items()' and isinstance(l.target, ast.Tuple)
+    floc = Locals(fn)
+    e = floc.resolve(ents[0])
+    loops = [l for l in ast.walk(fn) if isinstance(l, ast.For) and norm(_inline(floc, l.iter)) == f'{pb}.get_targets().items()' and isinstance(l.target, ast.Tuple)
              and len(l.target.elts) == 2 and all(isinstance(x, ast.Name) for x in l.target.elts)]
-    ok = len(loops) == 1 and is_call_on(e, pk, 'get_introspection_data') and [norm(a) for a in e.args] == [norm(x) for x in loops[0].target.elts]  # type: ignore[attr-defined]
-    ctx.require(ok, f'{qn}: target_sources = {pk}.get_introspection_data(id, target) for every item of {pb}.get_targets()', mod, qn, ents[0],
-                f'target_sources is `{short(e)}`, not {pk}.get_introspection_data(<id>, <target>) over the items of {pb}.get_targets()')
+    ok = positive = False
+    if len(loops) == 1 and is_call_on(e, pk, 'get_introspection_data'):
+        _, _, gid = _resolved_method(ctx, 'get_introspection_data')
+        eb = bind_args(e, gid)  # type: ignore[arg-type]
+        got = [norm(eb[p_]) if p_ in eb else '<missing>' for p_ in params(gid)[:2]]
+        ok = got == [norm(x) for x in loops[0].target.elts]
+        positive = not ok and '<missing>' not in got
+    judge(ctx, ok, f'{qn}: target_sources = {pk}.get_introspection_data(id, target) for every item of {pb}.get_targets()', positive, mod, qn, ents[0],
+          f'target_sources is `{short(e)}`, not {pk}.get_introspection_data(<id>, <target>) over the items of {pb}.get_targets()')
     # reader
     nmod = ctx.repo.module(NINJA)
     rd = nmod.func('NinjaBackend.get_introspection_data')
     p0 = param(rd, 0, 'get_introspection_data')
     keyed = []
     for n in ast.walk(rd):
-        if isinstance(n, ast.Call) and call_method(n) == 'get' and recv(n) == f'self.{STORE}' and n.args and norm(n.args[0]) == p0:
+        if isinstance(n, ast.Call) and call_method(n) in ('get', 'pop', 'setdefault') and recv(n) == f'self.{STORE}' and n.args and norm(n.args[0]) == p0:
             keyed.append(n)
         if isinstance(n, ast.Subscript) and attr_chain(n.value) == f'self.{STORE}' and norm(n.slice) == p0:
             keyed.append(n)
     fl = Flow(rd)
     rets = [r for r in ast.walk(rd) if isinstance(r, ast.Return) and r.value is not None]
     ok = bool(keyed) and any(f'attr:self.{STORE}' in fl.origins(r.value) for r in rets)
-    ctx.require(ok, f'NinjaBackend.get_introspection_data returns self.{STORE}[target id]', nmod, 'NinjaBackend.get_introspection_data', rd,
-                f'get_introspection_data does not return the entry of self.{STORE} for its target id')
+    deferred: T.List[Undecided] = []
+    try:
+        judge(ctx, ok, f'NinjaBackend.get_introspection_data returns self.{STORE}[target id]', False, nmod, 'NinjaBackend.get_introspection_data', rd,
+              f'get_introspection_data does not return the entry of self.{STORE} for its target id')
+    except Undecided as e_:
+        deferred.append(e_)      # the who-may-write obligations below are independent of this one: evaluate them first
     # writers (K2) and keys
     writers: T.Dict[str, int] = {}
     nkeys = 0
@@ -610,9 +692,10 @@ def r1c(ctx: RuleCtx) -> None:
         for n in ast.walk(m):
             if isinstance(n, ast.Subscript) and attr_chain(n.value) == f'self.{STORE}':
                 nkeys += 1
-                ctx.require(_key_is_target_id(m, n.slice), f'NinjaBackend.{name}: self.{STORE}[{short(n.slice)}] is keyed by <target>.get_id()', nmod,
-                            f'NinjaBackend.{name}', n, f'the per-target store is indexed by `{short(n.slice)}`, not by the id of the target being generated; '
-                            'list_targets looks it up by the id key of Build.targets')
+                kk = _key_is_target_id(m, n.slice)
+                judge(ctx, kk is True, f'NinjaBackend.{name}: self.{STORE}[{short(n.slice)}] is keyed by <target>.get_id()', kk is False, nmod,
+                      f'NinjaBackend.{name}', n, f'the per-target store is indexed by `{short(n.slice)}`, not by the id of the target being generated; '
+                      'list_targets looks it up by the id key of Build.targets')
             if isinstance(n, ast.Assign) and len(n.targets) == 1 and isinstance(n.targets[0], ast.Name) and isinstance(n.value, ast.Subscript) \
                     and attr_chain(n.value.value) == f'self.{STORE}':
                 aliases.add(n.targets[0].id)
@@ -631,23 +714,39 @@ def r1c(ctx: RuleCtx) -> None:
             if isinstance(n, ast.Call) and isinstance(n.func, ast.Attribute) and n.func.attr in ('update', 'setdefault', 'pop', 'clear', 'popitem') \
                     and (attr_chain(n.func.value) == f'self.{STORE}'):
                 writers[name] = writers.get(name, 0) + 1
-    extra = sorted(set(writers) - STORE_WRITERS)
+    # a private helper whose only callers (inside the class) are allowed writers writes on their behalf
+    allowed = set(STORE_WRITERS)
+    callers: T.Dict[str, T.Set[str]] = {}
+    for cname, cm in nmod.methods('NinjaBackend').items():
+        for c in ast.walk(cm):
+            if isinstance(c, ast.Call) and recv(c) == 'self' and call_method(c) in writers:
+                callers.setdefault(call_method(c) or '', set()).add(cname)
+    for _ in range(3):
+        for w in writers:
+            if w not in allowed and w.startswith('_') and callers.get(w) and callers[w] <= allowed:
+                allowed.add(w)
+    extra = sorted(set(writers) - allowed)
     ctx.require(not extra, f'self.{STORE} is written only by {sorted(writers)}', nmod, 'NinjaBackend', f'writers of self.{STORE}: {extra}',
                 f'self.{STORE} is also written by {extra}: target_sources no longer mirror the generated compile/link statements only')
     ctx.floor(f'writes to self.{STORE}', sum(writers.values()), 4)
+    if deferred:
+        raise deferred[0]
     ctx.floor(f'keyed accesses to self.{STORE}', nkeys, 3)
     gt = nmod.func('NinjaBackend.generate_target')
     resets = [n for n in ast.walk(gt) if isinstance(n, ast.Assign) and isinstance(n.targets[0], ast.Subscript) and attr_chain(n.targets[0].value) == f'self.{STORE}'
               and isinstance(n.value, ast.Dict) and not n.value.keys]
-    ctx.require(len(resets) == 1, 'generate_target starts every build target with an empty entry', nmod, 'NinjaBackend.generate_target', gt,
-                'generate_target does not (re)initialise the introspection entry of the target it generates')
+    keeps = [c for c in ast.walk(gt) if isinstance(c, ast.Call) and call_method(c) in ('setdefault', 'get') and recv(c) == f'self.{STORE}']
+    judge(ctx, len(resets) == 1, 'generate_target starts every build target with an empty entry', not resets and bool(keeps), nmod, 'NinjaBackend.generate_target',
+          keeps[0] if keeps else gt, 'generate_target keeps an existing introspection entry of the target instead of starting from an empty one '
+          '(sources recorded by an earlier generation of the same backend object stay listed)')
     # ids: Build.targets is keyed by get_id()
     imod = ctx.repo.module(INTERP)
     at = imod.func('Interpreter.add_target')
     st = [n for n in ast.walk(at) if isinstance(n, ast.Assign) and isinstance(n.targets[0], ast.Subscript) and attr_chain(n.targets[0].value) == 'self.build.targets']
-    ok = len(st) == 1 and _key_is_target_id(at, st[0].targets[0].slice) and norm(st[0].value) == recv(Locals(at).resolve(st[0].targets[0].slice))  # type: ignore[arg-type,attr-defined]
-    ctx.require(ok, 'Interpreter.add_target registers every target under target.get_id()', imod, 'Interpreter.add_target', st[0] if st else at,
-                'Build.targets is not keyed by the id of the registered target')
+    kk = _key_is_target_id(at, st[0].targets[0].slice) if len(st) == 1 else None  # type: ignore[attr-defined]
+    ok = kk is True and norm(st[0].value) == recv(Locals(at).resolve(st[0].targets[0].slice))  # type: ignore[arg-type,attr-defined]
+    judge(ctx, ok, 'Interpreter.add_target registers every target under target.get_id()', kk is False, imod, 'Interpreter.add_target', st[0] if st else at,
+          'Build.targets is not keyed by the id of the registered target')
     # compile statements record the source they consume
     gsc = nmod.func('NinjaBackend.generate_single_compile')
     src, isgen = param(gsc, 1, 'generate_single_compile'), param(gsc, 2, 'generate_single_compile')
@@ -764,8 +863,12 @@ def r1d(ctx: RuleCtx) -> None:
     ctx.ok(f'intro-buildoptions.json: {lb.name} -> {pq}(coredata)')
     ub = mod.func('update_build_options')
     ucalls = [x for x in ast.walk(ub) if isinstance(x, ast.Call) and isinstance(x.func, ast.Name) and x.func.id == pq]
-    ctx.require(len(ucalls) == 1 and [norm(a) for a in ucalls[0].args][:1] == [param(ub, 0, 'update_build_options')], f'update_build_options (meson configure) uses the same {pq}',
-                mod, 'update_build_options', ub, f'update_build_options does not rewrite intro-buildoptions.json through {pq}(coredata)')
+    others_ = [x for t_ in ast.walk(ub) if isinstance(t_, ast.Tuple) and len(t_.elts) == 2 and isinstance(t_.elts[0], ast.Constant) and t_.elts[0].value == 'buildoptions'
+               for x in [t_.elts[1]] if isinstance(x, ast.Call) and isinstance(x.func, ast.Name) and x.func.id != pq and mod.has_func(x.func.id)]
+    okc = len(ucalls) == 1 and norm(bind_args(ucalls[0], proj).get(param(proj, 0, pq))) == param(ub, 0, 'update_build_options')
+    judge(ctx, okc, f'update_build_options (meson configure) uses the same {pq}', bool(others_),
+          mod, 'update_build_options', others_[0] if others_ else ub, f'update_build_options rewrites intro-buildoptions.json through '
+          f'{others_[0].func.id if others_ else "?"}, not through {pq}(coredata) that the configure step uses')  # type: ignore[attr-defined]
     p0 = param(proj, 0, pq)
     root = f'{p0}.optstore'
     covered: T.Dict[str, str] = {}
@@ -778,8 +881,12 @@ def r1d(ctx: RuleCtx) -> None:
             elif omod.has_func(f'OptionStore.{n.attr}') and not _returns_bool(omod.func(f'OptionStore.{n.attr}')):
                 for f in _value_stores(omod, n.attr, fields):
                     covered.setdefault(f, f'{root}.{n.attr}()')
+    # closed world: the store is not handed to a helper this rule does not look into
+    handed = [c for c in ast.walk(proj) if isinstance(c, ast.Call) and not (isinstance(c.func, ast.Attribute) and attr_chain(c.func.value) in roots)
+              and any((attr_chain(a) or '').split('.')[0] in ({p0} | {r for r in roots if '.' not in r}) and (attr_chain(a) in roots or attr_chain(a) == p0)
+                      for a in list(c.args) + [k.value for k in c.keywords])]
     for f in sorted(need):
-        ctx.require(f in covered, f'{pq}: reads the value store `{f}` ({covered.get(f)})', mod, pq, f'{root}.{f}', node=proj, message=
+        judge(ctx, f in covered, f'{pq}: reads the value store `{f}` ({covered.get(f)})', not handed, mod, pq, f'{root}.{f}', node=proj, msg=
                     f'get_option() resolves values through OptionStore.{resolver}, which reads the stores {sorted(need)}; {pq} never reads `{f}`, so values '
                     f'held only there (per-subproject overrides such as -Dsub:warning_level=3) are returned by get_option() but absent from intro-buildoptions.json')
     # the emitted value comes from the option objects handed in, and those come from the store
@@ -793,17 +900,18 @@ def r1d(ctx: RuleCtx) -> None:
     efl = Flow(ef)
     eo = efl.origins(val)
     cur = any((o.startswith('attr:') and o.endswith('.value') and o.count('.') == 1) or o == f'call:{root}.{resolver}' or o == f'call:{root}.get_value_for' for o in eo)
-    ctx.require(cur, f'{pq}: emitted "value" is the current value of the option (`{short(val)}`)', mod, pq, val,
-                f'"value" is `{short(val)}`: not the option object\'s .value nor a resolver result, so it is not what get_option() returned')
+    other_attr = sorted(o for o in eo if o.startswith('attr:') and o.count('.') == 1 and o.split('.')[1] in ('default', 'description', 'name', 'choices', 'parent'))
+    judge(ctx, cur, f'{pq}: emitted "value" is the current value of the option (`{short(val)}`)', bool(other_attr), mod, pq, val,
+          f'"value" is `{short(val)}`: it reads {other_attr} instead of the option object\'s .value / a resolver result, so it is not what get_option() returned')
     if ef is proj:
         ok = any(o.startswith(f'attr:{root}') or o.startswith(f'call:{root}') for o in eo)
-        ctx.require(ok, f'{pq}: emitted value derives from {root}', mod, pq, val, f'the emitted value `{short(val)}` does not derive from {root}')
+        judge(ctx, ok, f'{pq}: emitted value derives from {root}', False, mod, pq, val, f'the emitted value `{short(val)}` does not derive from {root}')
     else:
         eps = params(ef)
         src_params = [p for p in eps if f'param:{p}' in eo]
         direct = any(o.startswith(f'attr:{root}') or o.startswith(f'call:{root}') for o in eo)
-        ctx.require(bool(src_params) or direct, f'{pq}.{ef.name}: emitted value `{short(val)}` derives from its option collection', mod, f'{pq}.{ef.name}', val,
-                    f'the emitted value `{short(val)}` does not derive from the options handed to {ef.name}')
+        judge(ctx, bool(src_params) or direct, f'{pq}.{ef.name}: emitted value `{short(val)}` derives from its option collection', False, mod, f'{pq}.{ef.name}', val,
+              f'the emitted value `{short(val)}` does not derive from the options handed to {ef.name}')
         ofl = Flow(proj)
         sites = [x for x in walk_no_nested(proj) if isinstance(x, ast.Call) and isinstance(x.func, ast.Name) and x.func.id == ef.name]
         ctx.floor(f'{ef.name} call sites', len(sites), 7)
@@ -851,15 +959,21 @@ def r1e(ctx: RuleCtx) -> None:
         raise Undecided('generate_introspection_file: loop over INTRO_TYPES.items() not found')
     kvar, vvar = norm(loops[0].target.elts[0]), norm(loops[0].target.elts[1])
     calls = [c for st in loops[0].body for c in ast.walk(st) if isinstance(c, ast.Call) and attr_chain(c.func) == f'{vvar}.func']
-    ok = len(calls) == 1 and len(calls[0].args) == 3 and norm(loc.resolve(calls[0].args[0])) in (f'{pb}.environment.get_coredata()', f'{pb}.environment.coredata') \
-        and [norm(a) for a in calls[0].args[1:]] == [pb, pk]
-    ctx.require(ok, f'generate_introspection_file calls every producer with (coredata of {pb}, {pb}, {pk})', mod, gen.name, calls[0] if calls else gen,
-                'the producers are not called with (builddata.environment.get_coredata(), builddata, backend)')
+    ok = positive = False
+    if len(calls) == 1:
+        cb = bind_args(calls[0], None, ['coredata', 'builddata', 'backend'])
+        if all(k in cb for k in ('coredata', 'builddata', 'backend')):
+            a0 = norm(_inline(loc, cb['coredata']))
+            ok = a0 in (f'{pb}.environment.get_coredata()', f'{pb}.environment.coredata', f'{pb}.environment.get_coredata') and [norm(cb['builddata']), norm(cb['backend'])] == [pb, pk]
+            positive = not ok
+    judge(ctx, ok, f'generate_introspection_file calls every producer with (coredata of {pb}, {pb}, {pk})', positive, mod, gen.name, calls[0] if calls else gen,
+          f'the producers are called with ({", ".join(short(a, 50) for a in (calls[0].args if calls else []))}) instead of ({pb}.environment.get_coredata(), {pb}, {pk})')
     # the (kind, data) pair is stored under its own key
     fl = Flow(gen)
-    pairs = [t for st in loops[0].body for t in ast.walk(st) if isinstance(t, ast.Tuple) and len(t.elts) == 2 and calls and t.elts[1] is calls[0]]
-    ctx.require(len(pairs) == 1 and norm(pairs[0].elts[0]) == kvar, 'each result is paired with its own kind', mod, gen.name, pairs[0] if pairs else gen,
-                'the result of a producer is not stored under the kind it was registered for')
+    pairs = [t for st in loops[0].body for t in ast.walk(st) if isinstance(t, ast.Tuple) and len(t.elts) == 2 and calls
+             and (t.elts[1] is calls[0] or (isinstance(t.elts[1], ast.Name) and loc.defs.get(t.elts[1].id) == [calls[0]]))]
+    judge(ctx, len(pairs) == 1 and norm(pairs[0].elts[0]) == kvar, 'each result is paired with its own kind', len(pairs) == 1, mod, gen.name, pairs[0] if pairs else gen,
+          'the result of a producer is not stored under the kind it was registered for')
     ok = bool(calls)
     npaths = 0
     for pth in enumerate_paths(loops[0].body, pure={'func'}):
@@ -869,10 +983,18 @@ def r1e(ctx: RuleCtx) -> None:
                 ok = False
     ctx.require(ok, f'only kinds without producer are skipped ({npaths} paths through the dispatch loop)', mod, gen.name, loops[0].iter,
                 'a kind that has a producer can be skipped at configure time: its intro file keeps describing an older configuration')
-    w = [c for c in ast.walk(gen) if isinstance(c, ast.Call) and isinstance(c.func, ast.Name) and c.func.id == 'write_intro_info']
-    ok = len(w) == 1 and len(w[0].args) == 2 and norm(w[0].args[1]) == f'{pb}.environment.info_dir' and any(o == f'call:{vvar}.func' for o in fl.origins(w[0].args[0]))
-    ctx.require(ok, f'the results are written to {pb}.environment.info_dir', mod, gen.name, w[0] if w else gen, 'results are not written by write_intro_info(<results>, builddata.environment.info_dir)')
     wi = mod.func('write_intro_info')
+    w = [c for c in ast.walk(gen) if isinstance(c, ast.Call) and isinstance(c.func, ast.Name) and c.func.id == 'write_intro_info']
+    ok = positive = False
+    if len(w) == 1:
+        wb = bind_args(w[0], wi)
+        w0, w1 = param(wi, 0, 'write_intro_info'), param(wi, 1, 'write_intro_info')
+        if w0 in wb and w1 in wb:
+            d_ = norm(_inline(loc, wb[w1]))
+            ok = d_ in (f'{pb}.environment.info_dir', f'{pb}.environment.get_info_dir()') and any(o == f'call:{vvar}.func' for o in fl.origins(wb[w0]))
+            positive = d_.startswith(f'{pb}.environment.') and d_ not in (f'{pb}.environment.info_dir', f'{pb}.environment.get_info_dir()')
+    judge(ctx, ok, f'the results are written to {pb}.environment.info_dir', positive, mod, gen.name, w[0] if w else gen,
+          'the results are written to another directory than builddata.environment.info_dir, where `meson introspect` and the IDEs read them')
     from ..consteval import fold_expr
     wl = [l for l in wi.body if isinstance(l, ast.For) and isinstance(l.target, ast.Tuple) and len(l.target.elts) == 2]
     if len(wl) != 1:
@@ -882,16 +1004,19 @@ def r1e(ctx: RuleCtx) -> None:
     reps = [c for c in method_calls(wl[0], 'replace') if recv(c) == 'os']
     dumps = [c for c in method_calls(wl[0], 'dump') if recv(c) == 'json']
     okn = False
+    folded: T.Any = None
     if len(reps) == 1 and len(reps[0].args) == 2:
         dst = reps[0].args[1]
         dd = [v for v in wloc.defs.get(norm(dst), []) if v is not None]
         if len(dd) == 1 and isinstance(dd[0], ast.Call) and call_method(dd[0]) == 'join' and len(dd[0].args) == 2 and norm(dd[0].args[0]) == param(wi, 1, 'write_intro_info'):
             try:
-                okn = fold_expr(ctx.repo, mod, dd[0].args[1], env={kv: 'KIND'}) == 'intro-KIND.json'
+                folded = fold_expr(ctx.repo, mod, dd[0].args[1], env={kv: 'KIND'})
+                okn = folded == 'intro-KIND.json'
             except Undecided:
                 okn = False
-    ctx.require(okn and len(dumps) == 1 and norm(dumps[0].args[0]) == dv, 'write_intro_info writes each datum to <info_dir>/intro-<kind>.json', mod, 'write_intro_info', wi,
-                'write_intro_info does not dump each (kind, data) into os.path.join(info_dir, f"intro-{kind}.json")')
+    judge(ctx, okn and len(dumps) == 1 and norm(bind_args(dumps[0], None, ['obj', 'fp']).get('obj')) == dv, 'write_intro_info writes each datum to <info_dir>/intro-<kind>.json',
+          isinstance(folded, str) and not okn, mod, 'write_intro_info', wi,
+          f'write_intro_info names the file {folded!r} (KIND = the kind); the documented name is intro-<kind>.json')
     # buildsystem_files: Build.def_files, the list the regeneration rule depends on
     bf = intro_func(mod, 'buildsystem_files')
     bpb = param(bf, 1, bf.name)
@@ -899,13 +1024,13 @@ def r1e(ctx: RuleCtx) -> None:
     rets = [r for r in ast.walk(bf) if isinstance(r, ast.Return) and r.value is not None]
     ok = bool(rets) and all(f'attr:{bpb}.def_files' in bfl.origins(r.value) for r in rets)
     others = sorted({o for r in rets for o in bfl.origins(r.value) if o.startswith('call:os.') or o.startswith('call:find_')})
-    ctx.require(ok and not others, f'intro-buildsystem_files.json lists {bpb}.def_files (the files the interpreter read)', mod, bf.name, rets[0] if rets else bf,
-                f'{bf.name} does not (only) list {bpb}.def_files: extra sources {others}')
+    judge(ctx, ok and not others, f'intro-buildsystem_files.json lists {bpb}.def_files (the files the interpreter read)', bool(others), mod, bf.name, rets[0] if rets else bf,
+          f'{bf.name} does not (only) list {bpb}.def_files: extra sources {others}')
     m, qn, rg = _resolved_method(ctx, 'get_regen_filelist')
     rfl = Flow(rg)
     rr = [r for r in ast.walk(rg) if isinstance(r, ast.Return) and r.value is not None]
-    ctx.require(bool(rr) and all('attr:self.build.def_files' in rfl.origins(r.value) for r in rr), f'{qn} (build.ninja regeneration dependencies) reads the same Build.def_files', m, qn, rg,
-                f'{qn} no longer derives the regeneration dependencies from self.build.def_files')
+    judge(ctx, bool(rr) and all('attr:self.build.def_files' in rfl.origins(r.value) for r in rr), f'{qn} (build.ninja regeneration dependencies) reads the same Build.def_files',
+          False, m, qn, rg, f'{qn} no longer derives the regeneration dependencies from self.build.def_files')
 
 
 
@@ -1060,12 +1185,25 @@ def r2a(ctx: RuleCtx) -> None:
                 fs = sorted({o.split('.')[-1] for o in lfl.origins(n) if o.startswith(f'attr:{tv}.') and o.count('.') == 1})
                 out.extend(fs)
         return list(dict.fromkeys(out))
+    # closed world: neither the serialisation nor the entry is handed to a helper, and the entry is not built by update()/dict(**...)
+    closed = True
+    for c in ast.walk(loops[0]):
+        if isinstance(c, ast.Call) and c not in app:
+            argn = {a.id for a in list(c.args) + [k.value for k in c.keywords] if isinstance(a, ast.Name)}
+            if (argn & ({tv} | dvars)) and call_method(c) not in ('isinstance', 'str', 'len'):
+                closed = False
+            if isinstance(c.func, ast.Attribute) and isinstance(c.func.value, ast.Name) and c.func.value.id in dvars and c.func.attr in ('update', 'setdefault'):
+                closed = False
+            if any(k.arg is None for k in c.keywords):
+                closed = False
+    if any(k is None for d in ast.walk(loops[0]) if isinstance(d, ast.Dict) for k in d.keys):
+        closed = False
     for key in doc:
         want = TEST_KEYS[key]
         vals = stores.get(key, [])
         got = [fields_of(v) for v in vals]
         ok = bool(vals) and all(g == want for g in got)
-        ctx.require(ok, f'{pq}: "{key}" is projected from TestSerialisation.{"+".join(want)} (read by mtest in {sorted(reads[want[0]])[:2]})', mod, pq,
+        judge(ctx, ok, f'{pq}: "{key}" is projected from TestSerialisation.{"+".join(want)} (read by mtest in {sorted(reads[want[0]])[:2]})', bool(vals) or closed, mod, pq,
                     vals[0] if vals else f'to[{key!r}]', f'documented key "{key}" must carry TestSerialisation.{" + ".join(want)} (what `meson test` uses); '
                     f'{pq} stores {[short(v) for v in vals] or "nothing"} under it (fields {got})')
     # cmd = program followed by arguments
@@ -1086,13 +1224,16 @@ def r2a(ctx: RuleCtx) -> None:
 REQUIRED_CATEGORIES = ['targets', 'headers', 'man', 'data', 'install_subdirs']   # property statement
 
 
-def _iterated_lists(fn: FuncNode, var: str, lists: T.List[str]) -> T.Set[str]:
-    out = set()
-    for l in ast.walk(fn):
-        it = l.iter if isinstance(l, (ast.For, ast.comprehension)) else None
-        if it is not None:
-            out |= {a.attr for a in ast.walk(it) if isinstance(a, ast.Attribute) and a.attr in lists and isinstance(a.value, ast.Name) and a.value.id == var}
-    return out
+def _iterated_lists(fn: FuncNode, var: str, lists: T.List[str]) -> T.Tuple[T.Set[str], bool]:
+    """InstallData lists read from `var` anywhere in fn (loop iterators, tables of pairs, dict displays ...), and whether the world is closed:
+    the object itself is not handed to a helper and no list is selected by a computed attribute name."""
+    out = {a.attr for a in ast.walk(fn) if isinstance(a, ast.Attribute) and a.attr in lists and isinstance(a.value, ast.Name) and a.value.id == var}
+    closed = True
+    for c in ast.walk(fn):
+        if isinstance(c, ast.Call):
+            if any(isinstance(a, ast.Name) and a.id == var for a in list(c.args) + [k.value for k in c.keywords]):
+                closed = False      # getattr(installdata, name), helper(installdata), vars(installdata) ...
+    return out, closed
 
 
 def r2b(ctx: RuleCtx) -> None:
@@ -1109,12 +1250,14 @@ def r2b(ctx: RuleCtx) -> None:
         for l in walk_no_nested(m):
             if isinstance(l, ast.For) and isinstance(l.iter, ast.Attribute) and l.iter.attr in lists and isinstance(l.target, ast.Name):
                 n_inst += 1
-                asks = [c for c in method_calls(l, 'should_install', nested=False) if recv(c) == 'self' and [norm(a) for a in c.args] == [l.target.id]]
+                asks = [c for c in method_calls(l, 'should_install', nested=False) if recv(c) == 'self' and l.target.id in [norm(a) for a in list(c.args) + [k.value for k in c.keywords]]]
+                handed = [c for c in walk_no_nested(l) if isinstance(c, ast.Call) and recv(c) == 'self' and call_method(c) != 'should_install'
+                          and any(isinstance(a, ast.Name) and a.id == l.target.id for a in list(c.args) + [k.value for k in c.keywords])]
                 first = l.body[0] if l.body else None
                 ok = isinstance(first, ast.If) and norm(first.test) == f'not self.should_install({l.target.id})' and isinstance(first.body[0], ast.Continue)
                 if asks and not ok:
                     raise Undecided(f'Installer.{name}: should_install({l.target.id}) is consulted but not as the leading `if not ...: continue` guard')
-                ctx.require(ok, f'Installer.{name}: elements of {l.iter.attr} are filtered by should_install', imod, f'Installer.{name}', l.iter,
+                judge(ctx, ok, f'Installer.{name}: elements of {l.iter.attr} are filtered by should_install', not handed, imod, f'Installer.{name}', l.iter,
                             f'Installer.{name} installs {l.iter.attr} without asking should_install first: tag/subproject in the plan would not predict what is installed', l)
     ctx.floor('per-kind installer loops', n_inst, 7)
     fn = intro_func(mod, 'install_plan')
@@ -1157,9 +1300,9 @@ def r2b(ctx: RuleCtx) -> None:
         v2, _ = _install_source(ctx, f2, f2.name, param(f2, 2, f2.name))
         if v2 is None:
             raise Undecided(f'{f2.name}: install data variable not found')
-        got = _iterated_lists(f2, v2, lists)
+        got, closed = _iterated_lists(f2, v2, lists)
         for c in REQUIRED_CATEGORIES:
-            ctx.require(c in got, f'intro-{kind}.json covers InstallData.{c}', mod, f2.name, f'{v2}.{c}',
+            judge(ctx, c in got, f'intro-{kind}.json covers InstallData.{c}', closed, mod, f2.name, f'{v2}.{c}',
                         f'{f2.name} never iterates {v2}.{c}: installed {c} are missing from intro-{kind}.json', f2)
 
 
@@ -1277,8 +1420,9 @@ def r5(ctx: RuleCtx) -> None:
     sets = [n for n in ast.walk(gen) if isinstance(n, ast.Assign) and len(n.targets) == 1 and isinstance(n.targets[0], ast.Attribute) and n.targets[0].attr == 'def_files']
     ok = bool(rets) and all('attr:self.build_def_files' in gfl.origins(r.value) for r in rets) and len(sets) == 1 \
         and isinstance(sets[0].value, ast.Call) and call_method(sets[0].value) == 'get_build_def_files'
-    ctx.require(ok, 'Build.def_files = Interpreter.get_build_def_files() = the collection add_build_def_file records into', smod, 'MesonApp',
-                sets[0] if sets else 'def_files', 'Build.def_files is no longer the interpreter\'s build_def_files collection')
+    judge(ctx, ok, 'Build.def_files = Interpreter.get_build_def_files() = the collection add_build_def_file records into',
+          len(sets) == 1 and bool(rets) and all('attr:self.build_def_files' in gfl.origins(r.value) for r in rets), smod, 'MesonApp',
+          sets[0] if sets else 'def_files', f'Build.def_files is set from `{short(sets[0].value) if sets else "?"}`, not from the interpreter\'s build_def_files collection')
     from ..tables import canon
     n_rec = n_checked = 0
     for pth in enumerate_paths(fn.body, handlers=True):
